@@ -20,8 +20,10 @@ import (
 	"strconv"
 	"strings"
 	"time"
+	"unicode/utf8"
 
 	"github.com/vimeo/dials"
+	"github.com/vimeo/dials/parse"
 	"github.com/vimeo/dials/sources/env"
 	cc "github.com/vimeo/dials/tagformat/caseconversion"
 
@@ -278,4 +280,108 @@ func extraCorpus(add func(in input)) {
 	add(input{K: "envp", Cfg: 0, Env: [][]byte{[]byte("x")}})
 	add(input{K: "envp", Cfg: 1, Env: [][]byte{[]byte("\xff\xfe"), []byte(strings.Repeat("L", 100000)), []byte("PORT=8080")}})
 	add(input{K: "envp", Cfg: 2, Env: [][]byte{[]byte("NOEQUALS=v"), []byte("X=maybe"), []byte("B=k:v")}})
+}
+
+// ---- compared cases on arbitrary byte strings (UTF-8 front end of the models) ----
+
+func bytesTerm(b []byte) string {
+	parts := make([]string, len(b))
+	for i, x := range b {
+		parts[i] = strconv.Itoa(int(x))
+	}
+	return coqfmt.List(parts)
+}
+
+func runBytes(in input, fail func(entry, what, s string)) driver.Result {
+	s := string(in.B)
+	valid := "bytes-valid-utf8"
+	if !isValidUTF8(s) {
+		valid = "bytes-invalid-utf8"
+	}
+	switch in.K {
+	case "decb":
+		out, what := call(func() string {
+			ws, err := decoders[in.D](s)
+			return driver.Outcome(coqfmt.Strs(ws), err, false)
+		})
+		fail(fmt.Sprintf("decoder %d", in.D), what, s)
+		return driver.Result{Coq: fmt.Sprintf("DecB %d %s %s", in.D, bytesTerm(in.B), out), Kind: "decoder-bytes",
+			Tags: []string{valid, "decoder-bytes-" + cls(out)}, Nontrivial: len(s) >= 2}
+	case "strb":
+		t, term := textgen.ParseTy(in.T)
+		out, what := call(func() string {
+			v, err := parse.String(s, t)
+			if err != nil {
+				return "(Err 0)"
+			}
+			return "(Ok " + textgen.Pval(v) + ")"
+		})
+		fail("parse.String at "+in.T, what, s)
+		return driver.Result{Coq: fmt.Sprintf("StrB %s %s %s %s", textgen.Printable(s), term, bytesTerm(in.B), out), Kind: "parse-string-bytes",
+			Tags: []string{valid, "parse-string-bytes-" + cls(out)}, Nontrivial: len(s) >= 2}
+	case "islb":
+		out, what := call(func() string { return intSlice(in.Signed, in.W, s) })
+		fail("integral slice parser", what, s)
+		return driver.Result{Coq: fmt.Sprintf("IntSlB %s %d %s %s", coqfmt.Bool(in.Signed), in.W, bytesTerm(in.B), out), Kind: "integral-slice-bytes",
+			Tags: []string{valid, "integral-slice-bytes-" + cls(out)}, Nontrivial: len(s) >= 2}
+	default:
+		out, what := call(func() string {
+			u, err := strconv.Unquote(s)
+			return driver.Outcome(textgen.StrBytes(u), err, false)
+		})
+		fail("strconv.Unquote", what, s)
+		return driver.Result{Coq: fmt.Sprintf("UnqB %s %s", bytesTerm(in.B), out), Kind: "unquote-bytes",
+			Tags: []string{valid, "unquote-bytes-" + cls(out)}, Nontrivial: len(s) >= 2}
+	}
+}
+
+func isValidUTF8(s string) bool { return utf8.ValidString(s) }
+
+var strayBytes = []byte{0x80, 0xbf, 0xc0, 0xc1, 0xc3, 0xe2, 0xed, 0xa0, 0xf0, 0xf4, 0xf5, 0xff, 0xfe, 0xe0, 0x9f, 0x90, 0x8f}
+
+// a short byte string: text of the usual grammars with stray bytes inserted, truncated
+// multi-byte sequences, overlong forms and surrogates
+func genShortBytes(r *coqfmt.Rng, base string) []byte {
+	b := []byte(base)
+	k := r.Intn(4)
+	for i := 0; i < k; i++ {
+		var ins []byte
+		switch r.Intn(6) {
+		case 0:
+			ins = []byte{0xc0, 0x80} // overlong NUL
+		case 1:
+			ins = []byte{0xed, 0xa0, 0x80} // surrogate
+		case 2:
+			ins = []byte{0xf4, 0x90, 0x80, 0x80} // above U+10FFFF
+		case 3:
+			ins = []byte("é")[:1] // truncated
+		default:
+			ins = []byte{strayBytes[r.Intn(len(strayBytes))]}
+		}
+		pos := r.Intn(len(b) + 1)
+		b = append(b[:pos], append(ins, b[pos:]...)...)
+	}
+	if r.Chance(1, 6) && len(b) > 0 {
+		b = b[:r.Intn(len(b))]
+	}
+	return b
+}
+
+func genBytesCase(r *coqfmt.Rng, tg *textgen.Gen) input {
+	switch r.Intn(10) {
+	case 0, 1, 2:
+		return input{K: "decb", D: r.Intn(8), B: genShortBytes(r, genIdent(r))}
+	case 3, 4, 5, 6:
+		t := coqfmt.Pick(r, strTypes)
+		base := tg.RawText(t)
+		if r.Chance(1, 3) {
+			base = tg.String()
+		}
+		return input{K: "strb", T: t, B: genShortBytes(r, base)}
+	case 7:
+		signed := r.Chance(1, 2)
+		return input{K: "islb", Signed: signed, W: r.Intn(5), B: genShortBytes(r, tg.RawText("sl:i8"))}
+	default:
+		return input{K: "unqb", B: genShortBytes(r, tg.QuotedText())}
+	}
 }
